@@ -45,6 +45,7 @@ def sweep(ctx, names, orders_for=None, trials=1, kinds=("smooth", "noise"), Ds=(
                 st0 = rng.bit_generator.state
                 S.FORCED_FLAGS.clear()
                 del S.DRAWN_FLAGS[:]
+                del S.DRAWN_CHOICES[:]
                 spec = gen(rng, D, N, order)
                 if spec is None:
                     continue
@@ -55,13 +56,16 @@ def sweep(ctx, names, orders_for=None, trials=1, kinds=("smooth", "noise"), Ds=(
                 # spatial-mixing flags / injection on-off), same remaining configuration: a flag that is dropped or
                 # swapped on the way into one interface must not depend on the luck of the seed
                 names_drawn = list(dict.fromkeys(S.DRAWN_FLAGS))
-                if t == 0 and names_drawn and len(names_drawn) <= 3:
+                choices_drawn = list(dict.fromkeys(S.DRAWN_CHOICES))
+                if t == 0 and (names_drawn or choices_drawn) and len(names_drawn) + len(choices_drawn) <= 3:
                     import itertools
                     st1 = rng.bit_generator.state
-                    for combo in itertools.product((False, True), repeat=len(names_drawn)):
+                    keys = names_drawn + [c[0] for c in choices_drawn]
+                    domains = [(False, True)] * len(names_drawn) + [tuple(range(c[1])) for c in choices_drawn]
+                    for combo in itertools.product(*domains):
                         rng.bit_generator.state = st0
                         S.FORCED_FLAGS.clear()
-                        S.FORCED_FLAGS.update(dict(zip(names_drawn, combo)))
+                        S.FORCED_FLAGS.update(dict(zip(keys, combo)))
                         sp2 = gen(rng, D, N, order)
                         if sp2 is None or repr(sorted((k, str(v)) for k, v in sp2.kwargs.items())) == repr(sorted((k, str(v)) for k, v in spec.kwargs.items())):
                             continue
@@ -148,19 +152,23 @@ def gensym_sweep(ctx, names, Ds=(1, 2, 3)):
             N = int(rng.choice(grid_sizes("quick", D)))
             S.FORCED_FLAGS.clear()
             del S.DRAWN_FLAGS[:]
+            del S.DRAWN_CHOICES[:]
             st0 = rng.bit_generator.state
             spec = R[name](rng, D, N, 2 if name not in S.LINEAR else 0)
             if spec is None:
                 continue
             gensym_check(ctx, spec)
             drawn = list(dict.fromkeys(S.DRAWN_FLAGS))
-            if drawn and len(drawn) <= 3:
+            cdrawn = list(dict.fromkeys(S.DRAWN_CHOICES))
+            if (drawn or cdrawn) and len(drawn) + len(cdrawn) <= 3:
                 import itertools
                 st1 = rng.bit_generator.state
-                for combo in itertools.product((False, True), repeat=len(drawn)):
+                keys = drawn + [c[0] for c in cdrawn]
+                domains = [(False, True)] * len(drawn) + [tuple(range(c[1])) for c in cdrawn]
+                for combo in itertools.product(*domains):
                     rng.bit_generator.state = st0
                     S.FORCED_FLAGS.clear()
-                    S.FORCED_FLAGS.update(dict(zip(drawn, combo)))
+                    S.FORCED_FLAGS.update(dict(zip(keys, combo)))
                     sp2 = R[name](rng, D, N, 2 if name not in S.LINEAR else 0)
                     if sp2 is not None:
                         gensym_check(ctx, sp2)
